@@ -268,6 +268,7 @@ func propC27(t *rapid.T) {
 }
 
 func TestC27(t *testing.T) {
+	runWitnesses(t, "C27")
 	colC27 = ev.New("C27", "rapid: all 10 integer types x widths {0..16,255} and a tenth anywhere in 0..255 x boundary-biased values (0, +-1, +-2^(8k), "+
 		"+-2^(8k)+-1, +-2^(8k-1), +-2^(8k-1)-1, all-ones, random); oracle = math/big range test and two's complement "+
 		"encoding; plus read-back ConstUint[T] of arbitrary byte strings and copy semantics of NewConst/WithWidth. "+
